@@ -509,6 +509,96 @@ def f(a, v):
 """, must=["np.roll(a, 2)"])
 
 
+# --- wave-6 / benign-5 normal forms ---------------------------------------------------------------------------------------------
+case("annotated assignment in a function", """
+def f(x):
+    S: list = [1, 2]
+    t: float = x + 1
+    return S, t
+""", must=["[1, 2]", "x + 1"], must_not=[": list", ": float"])
+case("generator unpacked over literals", """
+def f(N, S, j, t, eta):
+    m, etas = ((N * mean - S) / (N - j + 1) for mean in (t, eta))
+    return m + etas
+""", must=["(N * t - S) / (N - j + 1)", "(N * eta - S) / (N - j + 1)"], must_not=[" for mean in"])
+case("generator unpack: NOT with a filter", """
+def f(a, b):
+    p, q = (v + 1 for v in (a, b) if v)
+    return p, q
+""", must=["for v in (a, b) if v"])
+case("generator unpack: NOT over impure elements", """
+def f(g):
+    p, q = (v + 1 for v in (g(), g()))
+    return p, q
+""", must=["for v in (g(), g())"])
+case("**local dict written out", """
+def f(N, u, mean, polling):
+    common = dict(N=N, u=u, eta=mean)
+    return T(a=1, **common) if polling else T(a=2, **common)
+""", must=["T(a=1, N=N, u=u, eta=mean)", "T(a=2, N=N, u=u, eta=mean)"], must_not=["**common"])
+case("**local dict: NOT when the dict is also read", """
+def f(N, u):
+    common = dict(N=N, u=u)
+    g(common)
+    return T(**common)
+""", must=["**common"])
+case("**local dict: NOT when a value is re-bound before the use", """
+def f(N, u):
+    common = {"N": N, "u": u}
+    N = N + 1
+    return T(**common)
+""", must=["**common"])
+case("itertools.count loop", """
+def f(xs, done):
+    for i in itertools.count():
+        if not done(i):
+            break
+        xs.append(i)
+    return xs
+""", must=["while done(i)", "i += 1"], must_not=["itertools.count"])
+case("itertools.count loop: NOT with continue in the body", """
+def f(xs, done, skip):
+    for i in itertools.count():
+        if not done(i):
+            break
+        if skip(i):
+            continue
+        xs.append(i)
+    return xs
+""", must=["itertools.count"])
+case("enumerate over a slice", """
+def f(c):
+    return {str(cand): rank for rank, cand in enumerate(c[2:], start=1)}
+""", must=["range(2, len(c))", "str(c[_jrank])", "_jrank - 1"], must_not=["enumerate"])
+case("enumerate: NOT over an arbitrary iterable", """
+def f(it):
+    return {str(v): k for k, v in enumerate(it, start=1)}
+""", must=["enumerate(it, start=1)"])
+case("roll then slice store", """
+def f(v, minsd):
+    sdj = np.roll(np.maximum(np.sqrt(v), minsd), 1)
+    sdj[0:2] = 1
+    return sdj
+""", must=["np.insert(", "[0:-1]", "sdj[1:2] = 1"], must_not=["np.roll"])
+
+
+def _spec_case():
+    """keyword-only defaults nobody passes: specialised; one that is passed somewhere: left alone"""
+    import ast as _a, textwrap as _t
+    src = _t.dedent("""
+    def f(x, *, callback=None, by="k", seed=1):
+        if callback is not None:
+            callback(x)
+        return sorted(x, key=lambda e: e[by]), seed
+    def g(y):
+        return f(y, seed=3)
+    """)
+    tree = _a.parse(src)
+    n = canon.specialise_kwonly_defaults([tree])
+    out = _a.unparse(tree)
+    ok = n == 2 and "callback(x)" not in out and "e['k']" in out and "seed" in out.split("return")[1]
+    return ok, out
+
 def main():
     bad = 0
     for name, src, must, must_not in CASES:
@@ -524,7 +614,11 @@ def main():
         if miss or extra:
             bad += 1
             print(f"[FAIL] {name}: missing {miss} unexpected {extra}\n{textwrap.indent(out, '      ')}")
-    print(f"canon selftest: {len(CASES) - bad} ok, {bad} failed of {len(CASES)} cases")
+    ok, out = _spec_case()
+    if not ok:
+        bad += 1
+        print(f"[FAIL] keyword-only defaults specialised package-wide:\n{textwrap.indent(out, '      ')}")
+    print(f"canon selftest: {len(CASES) + 1 - bad} ok, {bad} failed of {len(CASES) + 1} cases")
     return 1 if bad else 0
 
 
